@@ -807,6 +807,7 @@ static void q_exec(const plan_t *p)
 static void q_gen(prng_t *r, int mode, plan_t *p)
 {
     p->cfg[CF_DECL] = DECL_OF_INDEX();    /* one run in five starts from the initializer macros */
+    p->cfg[CF_REUSE] = REUSE_OF_INDEX();  /* one run in six: the allocator hands a freed block out again at once */
     int small = prng_chance(r, 1, 5), longrun = mode == 5 && prng_chance(r, 1, 10);
     int nops = longrun ? 200 + (int)prng_below(r, 300) : small ? 2 + (int)prng_below(r, 8) : 10 + (int)prng_below(r, 50);
     int faults = mode == 5 && prng_chance(r, 1, 4);
